@@ -9,30 +9,45 @@ pub const BUILD: &str = "ark";
 #[cfg(feature = "min")]
 pub const BUILD: &str = "min";
 
-pub fn fq(v: &B) -> Fq {
-    let mut a = [0u8; 32];
-    a.copy_from_slice(&to_le(v, 32));
-    Fq::from_bytes_checked(&a).expect("harness: model value < q")
+/// Panics of the *library* inside the canonical byte conversions the harness uses as plumbing
+/// (e.g. a `debug_assert!` tripping in the monitor profile). They are collected here and turned
+/// into a violation of the running property by `main` — never into a harness crash.
+pub static CONVERSION_PANICS: std::sync::Mutex<Vec<String>> = std::sync::Mutex::new(Vec::new());
+
+fn note_conversion_panic(what: &str, value: String, msg: String) {
+    let mut g = CONVERSION_PANICS.lock().unwrap();
+    if g.len() < 20 {
+        g.push(format!("{what} panicked on {value}: {}", msg.lines().next().unwrap_or("")));
+    }
 }
-pub fn fqb(x: &Fq) -> B {
-    from_le(&x.to_bytes_le())
+
+macro_rules! conv {
+    ($to:ident, $from:ident, $F:ty, $n:literal) => {
+        pub fn $to(v: &B) -> $F {
+            let mut a = [0u8; $n];
+            a.copy_from_slice(&to_le(v, $n));
+            match crate::mon::guarded(|| <$F>::from_bytes_checked(&a)) {
+                Ok(r) => r.expect("harness: model value below the modulus"),
+                Err(p) => {
+                    note_conversion_panic(concat!(stringify!($F), "::from_bytes_checked"), crate::model::hexs(v), p);
+                    <$F>::ZERO
+                }
+            }
+        }
+        pub fn $from(x: &$F) -> B {
+            match crate::mon::guarded(|| x.to_bytes_le()) {
+                Ok(bytes) => from_le(&bytes),
+                Err(p) => {
+                    note_conversion_panic(concat!(stringify!($F), "::to_bytes_le"), "(library value)".to_string(), p);
+                    B::from(0u8)
+                }
+            }
+        }
+    };
 }
-pub fn fr(v: &B) -> Fr {
-    let mut a = [0u8; 32];
-    a.copy_from_slice(&to_le(v, 32));
-    Fr::from_bytes_checked(&a).expect("harness: model value < r")
-}
-pub fn frb(x: &Fr) -> B {
-    from_le(&x.to_bytes_le())
-}
-pub fn fp(v: &B) -> Fp {
-    let mut a = [0u8; 48];
-    a.copy_from_slice(&to_le(v, 48));
-    Fp::from_bytes_checked(&a).expect("harness: model value < p")
-}
-pub fn fpb(x: &Fp) -> B {
-    from_le(&x.to_bytes_le())
-}
+conv!(fq, fqb, Fq, 32);
+conv!(fr, frb, Fr, 32);
+conv!(fp, fpb, Fp, 48);
 
 /// library element with exactly the affine coordinates of the model point (Z = 1)
 pub fn from_pt(c: &Curve, p: &Pt) -> El {
